@@ -579,8 +579,13 @@ void DNS::update_records(uint32_t& section_start,
                 ptr += sizeof(uint16_t);
                 size -= sizeof(uint16_t);
             }
-            if (contains_dname(type)) {
+            if (contains_dname(type) || type == DNAM) {
                 update_dname(ptr, threshold, offset);
+            }
+            else if (type == SOA) {
+                // Both the primary name server and the mailbox can be compressed
+                uint8_t* mailbox_ptr = update_dname(ptr, threshold, offset);
+                update_dname(mailbox_ptr, threshold, offset);
             }
             ptr += size;
         }
